@@ -855,6 +855,9 @@ impl DirectAddrUpdateState {
                 iroh_base::verif::event("direct_addr.run.report_done", || format!("{why:?}"));
                 #[cfg(iroh_verif)]
                 iroh_base::verif::pause_async("direct_addr.run.before_done").await;
+                // Release the net reporter before signalling: the actor reacts to the signal with
+                // `try_run`, which must find the reporter free to start a pending update.
+                drop(net_reporter);
                 // mark run as finished
                 debug!("direct addr update done ({:?})", why);
                 run_done.send(()).await.ok();
